@@ -324,7 +324,45 @@ func runYANG(cases []Case) (outs [][]string) {
 // member after an unrelated first member, 3 = the union sits in a typedef, 4 = a further member follows.
 type UCase struct {
 	Case
-	Union int `json:"union"`
+	Union int `json:"union,omitempty"`
+	// Deviate: the last restriction sits in the replacement type of a deviation of a leaf of another
+	// module: 1 = deviate replace on a leaf, 2 = deviate add on a leaf, 3 = deviate replace on a leaf-list.
+	Deviate int `json:"deviate,omitempty"`
+	// History: the chain before the last step lives in an imported module of which a newer revision is
+	// loaded between two Process runs on the same Modules; the last restriction is a member of a union
+	// inside a typedef of the importing module.  1 = revision 1 has the typedefs of the chain without their
+	// restrictions, revision 2 has them; 2 = the other way round.  What is observed after the second
+	// Process must be the answer for the parent of revision 2.
+	History int `json:"history,omitempty"`
+}
+
+func (u UCase) placement() string {
+	switch {
+	case u.Deviate != 0:
+		return fmt.Sprintf("deviate %d", u.Deviate)
+	case u.History != 0:
+		return fmt.Sprintf("history %d", u.History)
+	}
+	return fmt.Sprintf("union %d", u.Union)
+}
+
+// expectCase: the chain whose last step the model is asked about (for history 2 the restriction stands
+// directly on the base type after the second run).
+func (u UCase) expectCase() Case {
+	if u.History == 2 {
+		return Case{Mode: u.Mode, Base: u.Base, Fd: u.Fd, Steps: u.Steps[len(u.Steps)-1:]}
+	}
+	return u.Case
+}
+
+func run1(u UCase) string {
+	switch {
+	case u.Deviate != 0:
+		return runDeviate([]UCase{u})[0]
+	case u.History != 0:
+		return runHistory([]UCase{u})[0]
+	}
+	return runUnion([]UCase{u})[0]
 }
 
 // errorsByLine maps errors "m.yang:<line>:…: bad range|bad length|negative length: …" to their class.
@@ -482,7 +520,262 @@ func runUnion(cases []UCase) (outs []string) {
 	return outs
 }
 
-func runUnions(cases []UCase, procs int) []string {
+
+// typeTexts: how the steps before the last are written as typedefs (prefix pre, names c<i>_<k>), and how
+// the type carrying the last restriction is written when it refers to them through prefix ref ("" = local).
+func baseTypeText(c Case) (kw, baseType, fdStmt string) {
+	kw, baseType = "range", c.Base
+	switch c.Mode {
+	case "len":
+		kw, baseType = "length", "string"
+	case "dec":
+		baseType = "decimal64"
+		fdStmt = fmt.Sprintf("fraction-digits %d; ", c.Fd)
+	}
+	return
+}
+
+var devErr = regexp.MustCompile(`(?s)d\.yang:(\d+):\d+: (bad range|bad length|negative length): (.*)$`)
+
+// runDeviate: module t holds the typedef chains and one leaf per case, module d one deviation per case.
+// A deviation with an error stops Process before any deviation is applied, so the cases that raised no
+// error are run once more on their own to read the deviated leaf.
+func runDeviate(cases []UCase) (outs []string) {
+	outs = make([]string, len(cases))
+	defer func() {
+		if p := recover(); p != nil {
+			for i := range outs {
+				if outs[i] == "" {
+					outs[i] = fmt.Sprintf("panic %v %s", p, firstLines(string(debug.Stack()), 12))
+				}
+			}
+		}
+	}()
+	pass := func(idx []int) (map[int]string, *yang.Entry, string) {
+		var tb, db strings.Builder
+		tb.WriteString("module t { namespace \"urn:t\"; prefix t;\n")
+		db.WriteString("module d { namespace \"urn:d\"; prefix d; import t { prefix t; }\n")
+		line := 2
+		lineCase := map[int]int{}
+		for _, i := range idx {
+			c := cases[i]
+			n := len(c.Steps)
+			kw, baseType, fdStmt := baseTypeText(c.Case)
+			for k := 0; k < n-1; k++ {
+				t := text(c.Steps[k])
+				if k == 0 {
+					fmt.Fprintf(&tb, "typedef c%d_%d { type %s { %s%s '%s'; } }\n", i, k+1, baseType, fdStmt, kw, t)
+				} else {
+					fmt.Fprintf(&tb, "typedef c%d_%d { type c%d_%d { %s '%s'; } }\n", i, k+1, i, k, kw, t)
+				}
+			}
+			if c.Deviate == 3 {
+				fmt.Fprintf(&tb, "leaf-list a%d { type boolean; }\n", i)
+			} else {
+				fmt.Fprintf(&tb, "leaf a%d { type boolean; }\n", i)
+			}
+			t := text(c.Steps[n-1])
+			var typ string
+			if n >= 2 {
+				typ = fmt.Sprintf("type t:c%d_%d { %s '%s'; }", i, n-1, kw, t)
+			} else {
+				typ = fmt.Sprintf("type %s { %s%s '%s'; }", baseType, fdStmt, kw, t)
+			}
+			how := "replace"
+			if c.Deviate == 2 {
+				how = "add"
+			}
+			fmt.Fprintf(&db, "deviation /t:a%d { deviate %s { %s } }\n", i, how, typ)
+			lineCase[line] = i
+			line += 1 + strings.Count(t, "\n")
+		}
+		tb.WriteString("}\n")
+		db.WriteString("}\n")
+		ms := yang.NewModules()
+		if err := ms.Parse(tb.String(), "t.yang"); err != nil {
+			return nil, nil, "parse-error " + firstLines(err.Error(), 2)
+		}
+		if err := ms.Parse(db.String(), "d.yang"); err != nil {
+			return nil, nil, "parse-error " + firstLines(err.Error(), 2)
+		}
+		errs := ms.Process()
+		bad := map[int]string{}
+		for _, e := range errs {
+			m := devErr.FindStringSubmatch(e.Error())
+			if m == nil {
+				continue
+			}
+			ln, _ := strconv.Atoi(m[1])
+			i, ok := lineCase[ln]
+			if !ok {
+				continue
+			}
+			cl := "negLength"
+			if m[2] != "negative length" {
+				cl = classify(strings.TrimSuffix(m[3], "]"))
+			}
+			if _, seen := bad[i]; !seen {
+				bad[i] = cl
+			}
+		}
+		other := ""
+		if len(errs) > 0 && len(bad) == 0 {
+			other = "unexpected-errors " + firstLines(errs[0].Error(), 2)
+		}
+		mod := ms.Modules["t"]
+		if mod == nil {
+			return bad, nil, "no-module"
+		}
+		return bad, yang.ToEntry(mod), other
+	}
+	all := make([]int, len(cases))
+	for i := range cases {
+		all[i] = i
+	}
+	bad, root, fail := pass(all)
+	if fail != "" {
+		for i := range outs {
+			outs[i] = fail
+		}
+		return outs
+	}
+	var rest []int
+	for i := range cases {
+		if cl, ok := bad[i]; ok {
+			outs[i] = "err " + cl
+		} else {
+			rest = append(rest, i)
+		}
+	}
+	if len(bad) > 0 && len(rest) > 0 {
+		bad2, root2, fail2 := pass(rest)
+		root = root2
+		for _, i := range rest {
+			if fail2 != "" {
+				outs[i] = fail2
+			} else if cl, ok := bad2[i]; ok {
+				outs[i] = "err-on-second-pass " + cl
+			}
+		}
+	}
+	for _, i := range rest {
+		if outs[i] != "" {
+			continue
+		}
+		e := root.Dir[fmt.Sprintf("a%d", i)]
+		if e == nil || e.Type == nil {
+			outs[i] = "no-type"
+			continue
+		}
+		if e.Type.Kind == yang.Ybool {
+			outs[i] = "not-deviated"
+			continue
+		}
+		if cases[i].Mode == "len" {
+			outs[i] = okOut(e.Type.Length)
+		} else {
+			outs[i] = okOut(e.Type.Range)
+		}
+	}
+	return outs
+}
+
+// runHistory: see UCase.History.
+func runHistory(cases []UCase) (outs []string) {
+	outs = make([]string, len(cases))
+	defer func() {
+		if p := recover(); p != nil {
+			for i := range outs {
+				if outs[i] == "" {
+					outs[i] = fmt.Sprintf("panic %v %s", p, firstLines(string(debug.Stack()), 12))
+				}
+			}
+		}
+	}()
+	var b1, b2, ub strings.Builder
+	b1.WriteString("module b { namespace \"urn:b\"; prefix b; revision 2020-01-01;\n")
+	b2.WriteString("module b { namespace \"urn:b\"; prefix b; revision 2021-01-01;\n")
+	ub.WriteString("module u { namespace \"urn:u\"; prefix u; import b { prefix b; }\n")
+	line := 2
+	caseLine := make([]int, len(cases))
+	for i, c := range cases {
+		n := len(c.Steps)
+		kw, baseType, fdStmt := baseTypeText(c.Case)
+		for k := 0; k < n-1; k++ {
+			t := text(c.Steps[k])
+			var with, without string
+			if k == 0 {
+				with = fmt.Sprintf("typedef c%d_%d { type %s { %s%s '%s'; } }\n", i, k+1, baseType, fdStmt, kw, t)
+				if fdStmt != "" {
+					without = fmt.Sprintf("typedef c%d_%d { type %s { %s} }\n", i, k+1, baseType, fdStmt)
+				} else {
+					without = fmt.Sprintf("typedef c%d_%d { type %s; }\n", i, k+1, baseType)
+				}
+			} else {
+				with = fmt.Sprintf("typedef c%d_%d { type c%d_%d { %s '%s'; } }\n", i, k+1, i, k, kw, t)
+				without = fmt.Sprintf("typedef c%d_%d { type c%d_%d; }\n", i, k+1, i, k)
+			}
+			if c.History == 2 {
+				b1.WriteString(with)
+				b2.WriteString(without)
+			} else {
+				b1.WriteString(without)
+				b2.WriteString(with)
+			}
+		}
+		t := text(c.Steps[n-1])
+		fmt.Fprintf(&ub, "typedef set%d { type union { type b:c%d_%d { %s '%s'; } type boolean; } } leaf s%d { type set%d; }\n", i, i, n-1, kw, t, i, i)
+		caseLine[i] = line
+		line += 1 + strings.Count(t, "\n")
+	}
+	b1.WriteString("}\n")
+	b2.WriteString("}\n")
+	ub.WriteString("}\n")
+	failAll := func(msg string) []string {
+		for i := range outs {
+			outs[i] = msg
+		}
+		return outs
+	}
+	ms := yang.NewModules()
+	if err := ms.Parse(b1.String(), "b1.yang"); err != nil {
+		return failAll("parse-error " + firstLines(err.Error(), 2))
+	}
+	if err := ms.Parse(ub.String(), "m.yang"); err != nil {
+		return failAll("parse-error " + firstLines(err.Error(), 2))
+	}
+	ms.Process() // first run; its verdicts are about the parent of revision 1 and are not compared
+	if err := ms.Parse(b2.String(), "b2.yang"); err != nil {
+		return failAll("parse-error " + firstLines(err.Error(), 2))
+	}
+	errs := ms.Process()
+	mod := ms.Modules["u"]
+	if mod == nil {
+		return failAll("no-module")
+	}
+	root := yang.ToEntry(mod)
+	errs = append(errs, root.GetErrors()...)
+	byLine := errorsByLine(errs)
+	for i, c := range cases {
+		if cl, ok := byLine[caseLine[i]]; ok {
+			outs[i] = "err " + cl
+			continue
+		}
+		e := root.Dir[fmt.Sprintf("s%d", i)]
+		if e == nil || e.Type == nil || len(e.Type.Type) != 2 {
+			outs[i] = "no-type"
+			continue
+		}
+		if c.Mode == "len" {
+			outs[i] = okOut(e.Type.Type[0].Length)
+		} else {
+			outs[i] = okOut(e.Type.Type[0].Range)
+		}
+	}
+	return outs
+}
+
+func runUnions(cases []UCase, procs int, run func([]UCase) []string) []string {
 	outs := make([]string, len(cases))
 	const batch = 64
 	var wg sync.WaitGroup
@@ -497,7 +790,7 @@ func runUnions(cases []UCase, procs int) []string {
 		go func(lo, hi int) {
 			defer wg.Done()
 			defer func() { <-sem }()
-			copy(outs[lo:hi], runUnion(cases[lo:hi]))
+			copy(outs[lo:hi], run(cases[lo:hi]))
 		}(lo, hi)
 	}
 	wg.Wait()
@@ -564,6 +857,18 @@ func genUnionCorpus() []Case {
 	addCase(&cs, "dec", "dec", 2, "1.005")
 	addCase(&cs, "int", "int8", 0, "")
 	addCase(&cs, "int", "int8", 0, "1|")
+	// witnesses of C10-f2 (errors of the type of a deviate dropped) and C10-f1 (a union typedef kept across runs)
+	addCase(&cs, "int", "uint8", 0, "1..10", "min..11")
+	addCase(&cs, "int", "uint8", 0, "1..10", "min..3 | 9..max")
+	addCase(&cs, "int", "int16", 0, "1..3 | 9..5")
+	addCase(&cs, "int", "int16", 0, "1...3")
+	addCase(&cs, "dec", "dec", 2, "-1.50..1.50", "-1.51..0")
+	addCase(&cs, "len", "nil", 0, "1..8", "1..9")
+	addCase(&cs, "len", "nil", 0, "1..8", "2..max")
+	addCase(&cs, "int", "uint8", 0, "3..10", "min..5")
+	addCase(&cs, "int", "uint8", 0, "7..10", "min..5")
+	addCase(&cs, "int", "uint8", 0, "0..10", "min..5")
+	addCase(&cs, "int", "int32", 0, "-5..5", "-2..2", "min..0|max")
 	return cs
 }
 
@@ -611,6 +916,52 @@ func runGo(cases []Case, procs int) [][]string {
 	}
 	wg.Wait()
 	return outs
+}
+
+// batchOf returns the chains that were resolved in one module together with cases[i] (runGo puts 64
+// consecutive chains with a parent into one module) and the position of cases[i] among them.  A
+// disagreement may depend on what else the Modules value has resolved, so the replay record keeps them.
+func batchOf(cases []Case, i int) ([]Case, int) {
+	if cases[i].Base == "none" {
+		return nil, 0
+	}
+	pos := 0
+	for j := 0; j < i; j++ {
+		if cases[j].Base != "none" {
+			pos++
+		}
+	}
+	lo := pos / 64 * 64
+	var b []Case
+	seen := 0
+	for j := range cases {
+		if cases[j].Base == "none" {
+			continue
+		}
+		if seen >= lo && seen < lo+64 {
+			b = append(b, cases[j])
+		}
+		seen++
+		if seen >= lo+64 {
+			break
+		}
+	}
+	return b, pos - lo
+}
+
+// replayIdx marks a disagreement of cases[i] whose replay record is built only if it is kept.
+type replayIdx int
+
+// chainReplay is the replay record of a plain chain.
+type chainReplay struct {
+	Case
+	Batch []Case `json:"batch,omitempty"`
+	Index int    `json:"index,omitempty"`
+}
+
+func mkReplay(cases []Case, i int) chainReplay {
+	b, k := batchOf(cases, i)
+	return chainReplay{Case: cases[i], Batch: b, Index: k}
 }
 
 // baseRaw is the parent of the first step as a raw range list, taken from the real code.
@@ -1576,7 +1927,7 @@ func main() {
 		{"random_ordered_chains", genRandomOrdered(f.Rand(2), nr), q(1, 2)},
 		{"malformed", genMalformed(f.Rand(3), nr), q(1, 2)},
 	}
-	var unionCases, unionRejected int64
+	placedCases, placedRejected := map[string]int64{}, map[string]int64{}
 	distinct := lib.NewDistinct()
 	var nontriv, evals int64
 	okSteps, errSteps := int64(0), int64(0)
@@ -1629,7 +1980,7 @@ func main() {
 			}
 			if strings.Contains(g, "panic") {
 				found = append(found, lib.Disagreement{Kind: "crash", Input: describe(c), Go: g, Model: ans[i], SpecVerdict: "violates",
-					What: "the range code panicked", Replay: c})
+					What: "the range code panicked", Replay: replayIdx(i)})
 				continue
 			}
 			if specIdx[i][1]-specIdx[i][0] != len(goOuts[i]) {
@@ -1637,88 +1988,140 @@ func main() {
 			}
 			if g != ans[i] {
 				found = append(found, lib.Disagreement{Kind: "correspondence", Input: describe(c), Go: g, Model: ans[i], SpecVerdict: verdict,
-					What: "range restriction: Go differs from the model (" + sec.name + "); spec on the Go outcome: " + verdict + " " + why, Replay: c})
+					What: "range restriction: Go differs from the model (" + sec.name + "); spec on the Go outcome: " + verdict + " " + why, Replay: replayIdx(i)})
 			} else if verdict != "holds" {
 				found = append(found, lib.Disagreement{Kind: "spec", Input: describe(c), Go: g, Model: ans[i], SpecVerdict: "violates",
-					What: "range restriction: the outcome violates the specification (" + sec.name + "): " + why, Replay: c})
+					What: "range restriction: the outcome violates the specification (" + sec.name + "): " + why, Replay: replayIdx(i)})
 			}
 			if i%(len(cases)/2+1) == 1 {
 				res.AddSample(map[string]any{"section": sec.name, "case": describe(c), "go": g, "model": ans[i]})
 			}
 		}
-		// union-member placements of the last step
+		// the last step once more in other placements: union member, replacement type of a deviation,
+		// union member below an imported typedef whose module is replaced by a newer revision between two runs
 		if sec.stride != 0 {
-			var ucs []UCase
-			var uparent, umodel []string
-			sel := 0
+			var ucs, dcs, hcs []UCase
+			sel, selH := 0, 0
 			for i, c := range cases {
-				if c.Base == "none" {
-					continue
-				}
-				par := parentOfLast(c, goOuts[i])
-				if par == "" {
+				if c.Base == "none" || parentOfLast(c, goOuts[i]) == "" {
 					continue
 				}
 				sel++
 				if sec.stride > 0 && sel%sec.stride != 0 {
 					continue
 				}
-				vs := []int{1 + (sel/maxInt(sec.stride, 1))%4}
+				r := sel / maxInt(sec.stride, 1)
 				if sec.stride < 0 {
-					vs = []int{1, 2, 3, 4}
-				}
-				for _, v := range vs {
-					ucs = append(ucs, UCase{Case: c, Union: v})
-					uparent = append(uparent, par)
-					umodel = append(umodel, lastStep(ans[i]))
-				}
-			}
-			uout := runUnions(ucs, f.Procs)
-			var ureqs []string
-			uidx := make([]int, len(ucs))
-			for j, uc := range ucs {
-				uidx[j] = -1
-				if r := unionSpecRequest(uc, uparent[j], uout[j]); r != "" {
-					uidx[j] = len(ureqs)
-					ureqs = append(ureqs, r)
-				}
-			}
-			uans, err := lib.ParBatch(f.Driver, ureqs, f.Procs)
-			if err != nil {
-				lib.Fatal("driver (spec, unions): %v", err)
-			}
-			for j, uc := range ucs {
-				if strings.HasPrefix(uout[j], "err ") {
-					unionRejected++
-				}
-				in := describe(uc.Case)
-				in["union_placement"] = uc.Union
-				if strings.HasPrefix(uout[j], "panic") {
-					found = append(found, lib.Disagreement{Kind: "crash", Input: in, Go: uout[j], Model: umodel[j], SpecVerdict: "violates",
-						What: "the range code panicked on a union member", Replay: uc})
-					continue
-				}
-				verdict, why := "", "go outcome could not be interpreted"
-				if uidx[j] >= 0 {
-					verdict, why = "holds", ""
-					if uans[uidx[j]] != "holds" {
-						verdict, why = "violates", uans[uidx[j]]
+					for v := 1; v <= 4; v++ {
+						ucs = append(ucs, UCase{Case: c, Union: v})
+					}
+					for v := 1; v <= 3; v++ {
+						dcs = append(dcs, UCase{Case: c, Deviate: v})
+					}
+				} else {
+					ucs = append(ucs, UCase{Case: c, Union: 1 + r%4})
+					if r%2 == 0 {
+						dcs = append(dcs, UCase{Case: c, Deviate: 1 + (r/2)%3})
 					}
 				}
-				if uout[j] != umodel[j] {
-					found = append(found, lib.Disagreement{Kind: "correspondence", Input: in, Go: uout[j], Model: umodel[j], SpecVerdict: verdict,
-						What: "restriction on a union member whose earlier member is the unrestricted parent type: outcome differs from the model's outcome for the same restriction (" + sec.name + "); spec on the Go outcome: " + verdict + " " + why, Replay: uc})
-				} else if verdict != "holds" {
-					found = append(found, lib.Disagreement{Kind: "spec", Input: in, Go: uout[j], Model: umodel[j], SpecVerdict: "violates",
-						What: "restriction on a union member: the outcome violates the specification (" + sec.name + "): " + why, Replay: uc})
-				}
-				if distinct.Add("union " + strconv.Itoa(uc.Union) + " " + uc.key()) {
-					nontriv++
+				if len(c.Steps) >= 2 {
+					selH++
+					if sec.stride < 0 {
+						hcs = append(hcs, UCase{Case: c, History: 1}, UCase{Case: c, History: 2})
+					} else {
+						if selH%2 == 0 {
+							hcs = append(hcs, UCase{Case: c, History: 1 + (selH/2)%2})
+						}
+					}
 				}
 			}
-			unionCases += int64(len(ucs))
-			evals += int64(len(ucs))
-			res.Distribution["union_cases_"+sec.name] = len(ucs)
+			goIdx := map[string]int{}
+			for i, c := range cases {
+				goIdx[c.key()] = i
+			}
+			for _, grp := range []struct {
+				name string
+				pcs  []UCase
+				run  func([]UCase) []string
+			}{{"union", ucs, runUnion}, {"deviate", dcs, runDeviate}, {"history", hcs, runHistory}} {
+				pcs := grp.pcs
+				if len(pcs) == 0 {
+					continue
+				}
+				// the model's answer: the last step of the chain (history 2: of the restriction on the base)
+				models := make([]string, len(pcs))
+				parents := make([]string, len(pcs))
+				var mreq []string
+				var mpos []int
+				for j, pc := range pcs {
+					i := goIdx[pc.key()]
+					if pc.History == 2 {
+						mreq = append(mreq, pc.expectCase().request())
+						mpos = append(mpos, j)
+						parents[j] = baseRaw(pc.Case)
+					} else {
+						models[j] = lastStep(ans[i])
+						parents[j] = parentOfLast(pc.Case, goOuts[i])
+					}
+				}
+				if len(mreq) > 0 {
+					ma, err := lib.ParBatch(f.Driver, mreq, f.Procs)
+					if err != nil {
+						lib.Fatal("driver (placements): %v", err)
+					}
+					for k, j := range mpos {
+						models[j] = lastStep(ma[k])
+					}
+				}
+				uout := runUnions(pcs, f.Procs, grp.run)
+				var ureqs []string
+				uidx := make([]int, len(pcs))
+				for j, pc := range pcs {
+					uidx[j] = -1
+					if r := unionSpecRequest(pc, parents[j], uout[j]); r != "" {
+						uidx[j] = len(ureqs)
+						ureqs = append(ureqs, r)
+					}
+				}
+				uans, err := lib.ParBatch(f.Driver, ureqs, f.Procs)
+				if err != nil {
+					lib.Fatal("driver (spec, placements): %v", err)
+				}
+				rejected := int64(0)
+				for j, pc := range pcs {
+					if strings.HasPrefix(uout[j], "err ") {
+						rejected++
+					}
+					in := describe(pc.Case)
+					in["placement"] = pc.placement()
+					if strings.HasPrefix(uout[j], "panic") {
+						found = append(found, lib.Disagreement{Kind: "crash", Input: in, Go: uout[j], Model: models[j], SpecVerdict: "violates",
+							What: "the range code panicked (" + pc.placement() + ")", Replay: pc})
+						continue
+					}
+					verdict, why := "", "go outcome could not be interpreted"
+					if uidx[j] >= 0 {
+						verdict, why = "holds", ""
+						if uans[uidx[j]] != "holds" {
+							verdict, why = "violates", uans[uidx[j]]
+						}
+					}
+					if uout[j] != models[j] {
+						found = append(found, lib.Disagreement{Kind: "correspondence", Input: in, Go: uout[j], Model: models[j], SpecVerdict: verdict,
+							What: "restriction placed as " + placementText(pc) + ": outcome differs from the model's outcome for the same restriction against the same parent (" + sec.name + "); spec on the Go outcome: " + verdict + " " + why, Replay: pc})
+					} else if verdict != "holds" {
+						found = append(found, lib.Disagreement{Kind: "spec", Input: in, Go: uout[j], Model: models[j], SpecVerdict: "violates",
+							What: "restriction placed as " + placementText(pc) + ": the outcome violates the specification (" + sec.name + "): " + why, Replay: pc})
+					}
+					if distinct.Add(pc.placement() + " " + pc.key()) {
+						nontriv++
+					}
+				}
+				placedCases[grp.name] += int64(len(pcs))
+				placedRejected[grp.name] += rejected
+				evals += int64(len(pcs))
+				res.Distribution[grp.name+"_cases_"+sec.name] = len(pcs)
+			}
 		}
 		sort.SliceStable(found, func(a, b int) bool {
 			return found[a].SpecVerdict == "violates" && found[b].SpecVerdict != "violates"
@@ -1727,6 +2130,9 @@ func main() {
 			if len(res.Disagreements) >= 50 {
 				res.Count("disagreements_not_examined", 1)
 				continue
+			}
+			if ri, ok := dd.Replay.(replayIdx); ok {
+				dd.Replay = mkReplay(cases, int(ri))
 			}
 			res.AddDisagreement(dd)
 		}
@@ -1800,8 +2206,10 @@ func main() {
 	res.Distribution["contains_pairs_checked_against_spec"] = sdcPairs
 	res.Distribution["steps_accepted"] = okSteps
 	res.Distribution["steps_rejected"] = errSteps
-	res.Distribution["union_member_placements"] = unionCases
-	res.Distribution["union_member_placements_rejected"] = unionRejected
+	for k, n := range placedCases {
+		res.Distribution[k+"_placements"] = n
+		res.Distribution[k+"_placements_rejected"] = placedRejected[k]
+	}
 	for d, n := range depthHist {
 		res.Distribution[fmt.Sprintf("chains_with_%d_accepted_steps", d)] = n
 	}
@@ -1809,8 +2217,18 @@ func main() {
 	res.Evaluations = evals
 	res.DistinctNontrivial = nontriv
 	res.Exhaustive = true
-	res.Rule = "restriction chains = (mode int|dec|len, base type or none, fraction-digits, list of restriction texts); exhaustive grids: all texts of 1 part (and of 2 and 3 parts over smaller sets) with bounds from {min, max, 0, -0, +-1, every integer type's limits and limits+-1, 2^63-1, 2^63, 2^64-1, 2^64} called directly and under each of the 8 integer types x 8 (thorough 12) earlier restrictions of it through YANG typedef chains; the same for lengths and for decimal64 at fraction-digits 1, 2, 17, 18 (thorough: 1..18); groups of chains that differ only in the interior of the parent (same outer bounds, same child text) resolved inside one module; literal-syntax tokens (white space incl. Unicode, base-0 literals, underscores, signs, keywords, 1..6 dots, empty parts) in all pairs; seeded random chains of depth 1..4, ordered random chains, random texts over the grammar's alphabet; every stride-th chain with a parent (all of the syntax tokens and random chains) is run once more with its last restriction placed on a member of a union whose earlier member is the unrestricted parent type (built-in or typedef; 2nd member, 3rd member, union inside a typedef, further member after it): error and range must be those of the plain placement; exported methods Contains/Equal/Validate/Sort/String on all lists of <= 2 parts over {0..4} (Contains: all pairs), over a signed universe with -0, over the 64-bit extremes at fd 0, 1, 18, all lists of 3 parts over {0..3}, random lists. Every Go outcome is compared with the model and judged by the executable specification. distinct_nontrivial = distinct inputs that have more than one part, a min/max keyword or more than one step (chains), or a list of more than one part (methods)"
+	res.Rule = "restriction chains = (mode int|dec|len, base type or none, fraction-digits, list of restriction texts); exhaustive grids: all texts of 1 part (and of 2 and 3 parts over smaller sets) with bounds from {min, max, 0, -0, +-1, every integer type's limits and limits+-1, 2^63-1, 2^63, 2^64-1, 2^64} called directly and under each of the 8 integer types x 8 (thorough 12) earlier restrictions of it through YANG typedef chains; the same for lengths and for decimal64 at fraction-digits 1, 2, 17, 18 (thorough: 1..18); groups of chains that differ only in the interior of the parent (same outer bounds, same child text) resolved inside one module; literal-syntax tokens (white space incl. Unicode, base-0 literals, underscores, signs, keywords, 1..6 dots, empty parts) in all pairs; seeded random chains of depth 1..4, ordered random chains, random texts over the grammar's alphabet; every stride-th chain with a parent (all of the syntax tokens and random chains) is run once more with its last restriction placed on a member of a union whose earlier member is the unrestricted parent type (built-in or typedef; 2nd member, 3rd member, union inside a typedef, further member after it): error and range must be those of the plain placement; the same chains with the last restriction in the type of a deviate replace/add on a leaf or leaf-list of another module; chains of two or more steps with the earlier steps in an imported module that is replaced by a newer revision (with / without the restrictions) between two Process runs on the same Modules, the last restriction on a union member inside a typedef of the importing module: after the second run the outcome must be the one for the new parent; exported methods Contains/Equal/Validate/Sort/String on all lists of <= 2 parts over {0..4} (Contains: all pairs), over a signed universe with -0, over the 64-bit extremes at fd 0, 1, 18, all lists of 3 parts over {0..3}, random lists. Every Go outcome is compared with the model and judged by the executable specification. distinct_nontrivial = distinct inputs that have more than one part, a min/max keyword or more than one step (chains), or a list of more than one part (methods)"
 	res.Write(f.Out)
+}
+
+func placementText(u UCase) string {
+	switch {
+	case u.Deviate != 0:
+		return "the type of a deviate " + map[int]string{1: "replace on a leaf", 2: "add on a leaf", 3: "replace on a leaf-list"}[u.Deviate] + " of another module"
+	case u.History != 0:
+		return "a union member (in a typedef) restricting an imported typedef whose module got a newer revision between two Process runs"
+	}
+	return "a union member whose earlier member is the unrestricted parent type"
 }
 
 func maxInt(a, b int) int {
@@ -1858,7 +2276,11 @@ func replay(f *lib.Flags, d *lib.Driver) {
 		}
 		return
 	}
-	if u, ok := probe["union"]; ok && u != nil && u.(float64) != 0 {
+	nz := func(k string) bool {
+		v, ok := probe[k].(float64)
+		return ok && v != 0
+	}
+	if nz("union") || nz("deviate") || nz("history") {
 		var uc UCase
 		if err := json.Unmarshal(p.Disagreement.Replay, &uc); err != nil {
 			lib.Fatal("%v", err)
@@ -1867,8 +2289,11 @@ func replay(f *lib.Flags, d *lib.Driver) {
 		initDecBases(d, res)
 		chain := runGo([]Case{uc.Case}, 1)[0]
 		par := parentOfLast(uc.Case, chain)
-		a, _ := d.Ask(uc.Case.request())
-		g := runUnion([]UCase{uc})[0]
+		if uc.History == 2 {
+			par = baseRaw(uc.Case)
+		}
+		a, _ := d.Ask(uc.expectCase().request())
+		g := run1(uc)
 		sv := "not evaluated (an earlier step of the chain fails)"
 		if par != "" {
 			if r := unionSpecRequest(uc, par, g); r != "" {
@@ -1876,8 +2301,8 @@ func replay(f *lib.Flags, d *lib.Driver) {
 			}
 		}
 		in := describe(uc.Case)
-		in["union_placement"] = uc.Union
-		fmt.Printf("input: %v\ngo (union member): %s\nmodel (same restriction): %s\nspec:  %s\n", in, g, lastStep(a), sv)
+		in["placement"] = uc.placement()
+		fmt.Printf("input: %v\ngo (%s): %s\nmodel (same restriction, same parent): %s\nspec:  %s\n", in, placementText(uc), g, lastStep(a), sv)
 		if g != lastStep(a) || sv != "holds" {
 			os.Exit(1)
 		}
@@ -1895,13 +2320,22 @@ func replay(f *lib.Flags, d *lib.Driver) {
 		}
 		return
 	}
-	var c Case
-	if err := json.Unmarshal(p.Disagreement.Replay, &c); err != nil {
+	var cr chainReplay
+	if err := json.Unmarshal(p.Disagreement.Replay, &cr); err != nil {
 		lib.Fatal("%v", err)
 	}
+	c := cr.Case
 	res := lib.NewResult("C10", f)
 	initDecBases(d, res)
 	g := runGo([]Case{c}, 1)[0]
+	if len(cr.Batch) > cr.Index && cr.Batch[cr.Index].key() == c.key() {
+		// together with the chains that were resolved in the same module (the order in which the
+		// typedefs of a module are resolved is fixed by their source position)
+		if gb := runYANG(cr.Batch)[cr.Index]; strings.Join(gb, " ; ") != strings.Join(g, " ; ") {
+			fmt.Printf("note: alone the chain gives %s; shown below is the outcome inside the recorded module of %d chains\n", strings.Join(g, " ; "), len(cr.Batch))
+			g = gb
+		}
+	}
 	a, _ := d.Ask(c.request())
 	verdict := "holds"
 	var why []string
